@@ -50,6 +50,87 @@ func variadicElems(v ssa.Value) ([]ssa.Value, bool) {
 	return out, true
 }
 
+// strComp is one component of a string that is assembled from parts: a literal or a value.
+type strComp struct {
+	lit string
+	val ssa.Value
+}
+
+// stringComponents flattens fmt.Sprintf(format-with-%s-verbs-only, parts...) or a concatenation
+// a + b + ... into its components, in order (adjacent literals merged).
+func stringComponents(v ssa.Value) ([]strComp, bool) {
+	var out []strComp
+	add := func(cp strComp) {
+		if cp.val == nil && cp.lit == "" {
+			return
+		}
+		if cp.val == nil && len(out) > 0 && out[len(out)-1].val == nil {
+			out[len(out)-1].lit += cp.lit
+			return
+		}
+		out = append(out, cp)
+	}
+	var flat func(v ssa.Value, depth int) bool
+	flat = func(v ssa.Value, depth int) bool {
+		if depth == 0 {
+			return false
+		}
+		v = canon(stripConv(v))
+		if sv, ok := constString(v); ok {
+			add(strComp{lit: sv})
+			return true
+		}
+		if bo, ok := v.(*ssa.BinOp); ok && bo.Op == token.ADD {
+			if b, isB := bo.Type().Underlying().(*types.Basic); isB && b.Info()&types.IsString != 0 {
+				return flat(bo.X, depth-1) && flat(bo.Y, depth-1)
+			}
+		}
+		if sp, ok := isCallTo(v, "fmt", "Sprintf"); ok {
+			format, isF := constString(sp.Call.Args[0])
+			elems, isV := variadicElems(sp.Call.Args[1])
+			if !isF || !isV {
+				return false
+			}
+			k := 0
+			for i := 0; i < len(format); i++ {
+				if format[i] != '%' {
+					add(strComp{lit: string(format[i])})
+					continue
+				}
+				if i+1 >= len(format) {
+					return false
+				}
+				i++
+				switch format[i] {
+				case '%':
+					add(strComp{lit: "%"})
+				case 's', 'v':
+					if k >= len(elems) {
+						return false
+					}
+					e := stripConv(elems[k])
+					k++
+					if b, isB := e.Type().Underlying().(*types.Basic); !isB || b.Info()&types.IsString == 0 {
+						return false
+					}
+					if !flat(e, depth-1) {
+						return false
+					}
+				default:
+					return false
+				}
+			}
+			return k == len(elems)
+		}
+		add(strComp{val: v})
+		return true
+	}
+	if !flat(v, 6) {
+		return nil, false
+	}
+	return out, true
+}
+
 // renderTable extracts {special constant -> returned string} from a renderer function with one
 // numeric parameter, and the fall-through return value(s).
 type renderTable struct {
@@ -219,29 +300,32 @@ func checkC18(c *Ctx) {
 				fail("the stat name sent is not the method's name parameter unchanged")
 			}
 		} else {
-			sp, isSp := isCallTo(stripConv(args[0]), "fmt", "Sprintf")
-			if !isSp {
-				fail("the bucket stat name is not built by fmt.Sprintf")
-			} else {
-				format, isF := constString(sp.Call.Args[0])
-				elems, isV := variadicElems(sp.Call.Args[1])
-				if !isF || format != "%s.%s-%s" {
-					fail(fmt.Sprintf("the bucket stat name format is %q, expected \"%%s.%%s-%%s\" ('<name>.<lower>-<upper>')", format))
-				} else if !isV || len(elems) != 3 {
-					fail("the bucket stat name is not built from exactly (name, lower, upper)")
-				} else {
-					rf := c.fn(pk, recv, s.renderer)
-					if canon(elems[0]) != ssa.Value(fn.Params[1]) {
-						fail("the first component of the bucket stat name is not the name parameter")
+			comps, okC := stringComponents(args[0])
+			rf := c.fn(pk, recv, s.renderer)
+			switch {
+			case !okC:
+				fail("the bucket stat name is not built from its parts by fmt.Sprintf with %s verbs or by string concatenation")
+			case len(comps) != 5 || comps[0].val == nil || comps[1].val != nil || comps[2].val == nil || comps[3].val != nil || comps[4].val == nil || comps[1].lit != "." || comps[3].lit != "-":
+				var shape []string
+				for _, cp := range comps {
+					if cp.val == nil {
+						shape = append(shape, fmt.Sprintf("%q", cp.lit))
+					} else {
+						shape = append(shape, "<value>")
 					}
-					for i, want := range []int{4, 5} {
-						rc, isCall := stripConv(elems[i+1]).(*ssa.Call)
-						which := []string{"lower", "upper"}[i]
-						if !isCall || rf == nil || staticCallee(rc) != rf {
-							fail("the " + which + " bound of the bucket stat name is not rendered by " + s.renderer + " (the renderer of the matching kind)")
-						} else if canon(rc.Call.Args[1]) != ssa.Value(fn.Params[want]) {
-							fail("the " + which + " bound position of the bucket stat name does not carry the " + which + " bound parameter (lower and upper swapped or repeated)")
-						}
+				}
+				fail(fmt.Sprintf("the bucket stat name has the shape %v, expected <name> \".\" <lower> \"-\" <upper>", shape))
+			default:
+				if canon(comps[0].val) != ssa.Value(fn.Params[1]) {
+					fail("the first component of the bucket stat name is not the name parameter")
+				}
+				for i, want := range []int{4, 5} {
+					rc, isCall := stripConv(canon(comps[2+2*i].val)).(*ssa.Call)
+					which := []string{"lower", "upper"}[i]
+					if !isCall || rf == nil || staticCallee(rc) != rf {
+						fail("the " + which + " bound of the bucket stat name is not rendered by " + s.renderer + " (the renderer of the matching kind)")
+					} else if canon(rc.Call.Args[1]) != ssa.Value(fn.Params[want]) {
+						fail("the " + which + " bound position of the bucket stat name does not carry the " + which + " bound parameter (lower and upper swapped or repeated)")
 					}
 				}
 			}
@@ -357,6 +441,7 @@ func (c *Ctx) checkStatsdDefaults(rule string) {
 		return
 	}
 	defPrec, _ := c.pkg("statsd").Types.Scope().Lookup("DefaultHistogramBucketNamePrecision").(*types.Const)
+	localDefault := map[*types.Var]*ssa.Phi{}
 	// default stores: *(&opts.F) = K guarded by opts.F == 0
 	checkDefault := func(optF *types.Var, want func(k *ssa.Const) bool, what string) {
 		n := 0
@@ -406,8 +491,68 @@ func (c *Ctx) checkStatsdDefaults(rule string) {
 			}
 		})
 		if n == 0 {
-			okAll = false
-			c.bad(rule, key+":"+optF.Name(), fn.Pos(), "no default is applied for an unset "+what)
+			// local form: v := opts.F; if v == 0 { v = K }  - a phi of the option and the default, the
+			// default arriving on the `== 0` edge, used for the reporter's field
+			found := false
+			instrsOf(fn, func(in ssa.Instruction) {
+				phi, isPhi := in.(*ssa.Phi)
+				if !isPhi || len(phi.Edges) != 2 || found {
+					return
+				}
+				for i, e := range phi.Edges {
+					k, isK := stripConv(e).(*ssa.Const)
+					o := phi.Edges[1-i]
+					if lf, _ := loadedField(canon(stripConv(o))); !isK || lf != optF || !want(k) {
+						continue
+					}
+					// the default arrives only when the option compared equal to zero
+					pred := phi.Block().Preds[i]
+					isZeroTest := func(cond ssa.Value) (bool, bool) {
+						op, x, y, okc := cmpOf(cond)
+						if !okc || (op != token.EQL && op != token.NEQ) {
+							return false, false
+						}
+						if _, isC := stripConv(x).(*ssa.Const); isC {
+							x, y = y, x
+						}
+						if canon(stripConv(x)) != canon(stripConv(o)) {
+							if lf2, _ := loadedField(canon(stripConv(x))); lf2 != optF {
+								return false, false
+							}
+						}
+						zc, isC := stripConv(y).(*ssa.Const)
+						if !isC {
+							return false, false
+						}
+						if zf, okz := constFloat(zc); !okz || zf != 0 {
+							return false, false
+						}
+						return true, op == token.EQL
+					}
+					okEdge := guardedByEdge(pred.Instrs[len(pred.Instrs)-1], isZeroTest) != nil
+					if !okEdge {
+						// the phi's own block is the join right after `if v == 0 { }`: the default edge is
+						// the test block's true edge itself when the then-branch is empty of blocks
+						if iff, isIf := condOf(phi.Block().Preds[1-i]); isIf {
+							if m, onTrue := isZeroTest(iff.Cond); m {
+								idx := 1
+								if onTrue {
+									idx = 0
+								}
+								okEdge = edgeDominates(phi.Block().Preds[1-i], idx, pred) || phi.Block().Preds[1-i].Succs[idx] == pred
+							}
+						}
+					}
+					if okEdge {
+						found = true
+						localDefault[optF] = phi
+					}
+				}
+			})
+			if !found {
+				okAll = false
+				c.bad(rule, key+":"+optF.Name(), fn.Pos(), "no default is applied for an unset "+what)
+			}
 		}
 		if okAll {
 			c.ok(rule, key+":"+optF.Name(), fn.Pos(), "unset "+what+" gets its documented default, set values are kept")
@@ -428,7 +573,10 @@ func (c *Ctx) checkStatsdDefaults(rule string) {
 		f, _ := addrField(st.Addr)
 		switch f {
 		case fRate:
-			if lf, _ := loadedField(st.Val); lf == optRate {
+			if lf, _ := loadedField(st.Val); lf == optRate && localDefault[optRate] == nil {
+				okFields["sampleRate"] = true
+			}
+			if d := localDefault[optRate]; d != nil && canon(stripConv(st.Val)) == ssa.Value(d) {
 				okFields["sampleRate"] = true
 			}
 		case fStatter:
@@ -444,7 +592,10 @@ func (c *Ctx) checkStatsdDefaults(rule string) {
 						it, isIt := isCallTo(b0.Y, "strconv", "Itoa")
 						if isS0 && s0 == "%." && isIt {
 							if cv, isCv := it.Call.Args[0].(*ssa.Convert); isCv {
-								if lf, _ := loadedField(cv.X); lf == optPrec {
+								if lf, _ := loadedField(cv.X); lf == optPrec && localDefault[optPrec] == nil {
+									okFields["bucketFmt"] = true
+								}
+								if d := localDefault[optPrec]; d != nil && canon(stripConv(cv.X)) == ssa.Value(d) {
 									okFields["bucketFmt"] = true
 								}
 							}
